@@ -7,7 +7,9 @@ PID = "C04"
 MANIFEST = {
     "technique": "Lean 4 theorems (bv_decide over all 64-bit bases/targets) for the relocation arithmetic of a hand model of "
                  "CodeHolder::relocate_to_base + absolute reference sites, run-time-meaning monitor, C++/Lean correspondence",
-    "text": "Lean proves for every base address, section offset, site and target (all 2^64 values): an AbsToRel / X64AddressEntry rel32 "
+    "text": "Lean proves over ALL programs (Props/C04E: relocs_own_their_regions[_final]) that every RelocEntry owns its region: inside the "
+            "buffer, containing the value word, disjoint from every other entry's region and from the field of every fixup reference - in "
+            "every assembling state and in the state relocate_to_base starts from. Lean also proves for every base address, section offset, site and target (all 2^64 values): an AbsToRel / X64AddressEntry rel32 "
             "that passes the range test reaches exactly the payload, a refused one is unreachable by any rel32, the 32-bit wrap-around "
             "designates the target modulo 2^32, the address-table rel32 reaches the slot, RelToAbs / embedded label addresses evaluate "
             "to base + section offset + label offset + addend, and assembling with the base known yields the same rel32 as relocating "
@@ -16,11 +18,12 @@ MANIFEST = {
             "table by running both on the same programs x bases (low, high, straddling 2^31/2^32/2^47/2^63) x base known at init or "
             "assigned at relocation x address table last or not; the Lean monitor decodes every absolute reference of the real "
             "relocated image (rel32, or FF /2|/4 + slot content).",
-    "note": "Trusted: as C03. JitRuntime::_add (allocation + copy loop) is not modelled: the relocated section bytes and layout are "
+    "note": "The fold of relocate_to_base over the entry list is not yet composed with the ownership invariant into one end-to-end "
+            "theorem (the monitor evaluates that composition on every explored program x base). Trusted: as C03. JitRuntime::_add (allocation + copy loop) is not modelled: the relocated section bytes and layout are "
             "compared instead; executing the code is not part of the check. x86 [ABSOLUTE] memory operands without a label and the "
             "movabs heuristic are not modelled. Model follows the repaired relocate_to_base tail (fixes/C04-1).",
 }
-MODS = ["AsmjitVerif.Props.C04"]
+MODS = ["AsmjitVerif.Props.C04", "AsmjitVerif.Props.C04E"]
 
 
 def addrtab_programs(rng, tier):
